@@ -19,26 +19,35 @@ Local Open Scope R_scope.
 (* strip_value: for every well-formed program (every register consumed once, fresh targets,
    one live register at the end -- what extract_contractions(tree) produces) of homogeneous
    kernels and all input arrays: if no normalisation factor is 0, the stripped run's
-   (m, e) satisfies  plain result = 10^e * m. *)
-Theorem C19_strip_value : forall prog arrays m e,
+   (m, e) satisfies  plain result = 10^e * m.
+   `g` is the divisor actually used for `p_array / factor` as a function of the factor: any g that
+   is the identity on non-zero factors (guard_ok) -- the pinned code's g = id and the proposed fix's
+   g f = f + (f == 0) (C19_guards_ok). *)
+Theorem C19_strip_value : forall g g' prog arrays m e,
+  guard_ok g ->
   Forall homog_instr prog ->
   wf_prog R prog (seq 0 (length arrays)) = true ->
-  Forall (fun t => fst t <> 0) (R_trace prog (combine (seq 0 (length arrays)) arrays) 0) ->
-  R_core true false prog arrays = Done m (Some e) ->
-  R_core false false prog arrays = Done (R_scale (pow10 e) m) None.
+  Forall (fun t => fst t <> 0) (R_trace g prog (combine (seq 0 (length arrays)) arrays) 0) ->
+  R_core g true false prog arrays = Done m (Some e) ->
+  R_core g' false false prog arrays = Done (R_scale (pow10 e) m) None.
 Proof. exact strip_value. Qed.
 Print Assumptions C19_strip_value.
 
 (* the same with check_zero=True: a run that does not take the zero exit returns the value,
    and returns exactly what check_zero=False returns *)
-Theorem C19_strip_value_check_zero : forall prog arrays m e,
+Theorem C19_strip_value_check_zero : forall g g' prog arrays m e,
+  guard_ok g ->
   Forall homog_instr prog ->
   wf_prog R prog (seq 0 (length arrays)) = true ->
-  R_core true true prog arrays = Done m (Some e) ->
-  R_core false false prog arrays = Done (R_scale (pow10 e) m) None /\
-  R_core true false prog arrays = Done m (Some e).
+  R_core g true true prog arrays = Done m (Some e) ->
+  R_core g' false false prog arrays = Done (R_scale (pow10 e) m) None /\
+  R_core g true false prog arrays = Done m (Some e).
 Proof. exact strip_value_cz. Qed.
 Print Assumptions C19_strip_value_check_zero.
+
+Theorem C19_guards_ok : guard_ok (fun f => f) /\ guard_ok rguard_fix.
+Proof. exact (conj guard_ok_id guard_ok_fix). Qed.
+Print Assumptions C19_guards_ok.
 
 (* every table-form einsum / tensordot / single-term step is homogeneous *)
 Theorem C19_kernels_homogeneous :
@@ -88,14 +97,14 @@ Print Assumptions C19_gather_stack_factors_le_1.
 (* mantissa_bounded: after every step with a non-zero factor the largest magnitude of
    the stored intermediate is exactly 1, and the recorded exponents are the running sums
    of log10(factor) *)
-Theorem C19_mantissa_one : forall prog temps e,
-  Forall (fun t => fst t <> 0 -> snd (snd t) = 1) (R_trace prog temps e).
+Theorem C19_mantissa_one : forall g prog temps e, guard_ok g ->
+  Forall (fun t => fst t <> 0 -> snd (snd t) = 1) (R_trace g prog temps e).
 Proof. exact trace_mantissa_one. Qed.
 Print Assumptions C19_mantissa_one.
 
-Theorem C19_exponent_is_sum_of_logs : forall prog temps e,
-  map (fun t => fst (snd t)) (R_trace prog temps e) =
-  running_sums e (map fst (R_trace prog temps e)).
+Theorem C19_exponent_is_sum_of_logs : forall g prog temps e,
+  map (fun t => fst (snd t)) (R_trace g prog temps e) =
+  running_sums e (map fst (R_trace g prog temps e)).
 Proof. exact trace_exponent_sum. Qed.
 Print Assumptions C19_exponent_is_sum_of_logs.
 
@@ -125,9 +134,9 @@ Definition zs_slices : list (list (list xq)) :=
   [ [[q 1 1; q 2 1]; [q 1 1; q 2 1]];  [[q 0 1; q 0 1]; [q 3 1; q 4 1]] ].
 Theorem C19_zero_slice_refuted : exists prog slices r s,
   X_wf prog [0;1]%nat = true /\
-  X_sum false false prog slices = Some (Plain (MArr r)) /\
+  X_sum false false false prog slices = Some (Plain (MArr r)) /\
   forallb x_nonzero_finite r = true /\
-  X_sum true false prog slices = Some s /\
+  X_sum false true false prog slices = Some s /\
   x_value_ok (Plain (MArr r)) s = false /\
   s = Strip (MArr [XNaN; XNaN; XNaN; XNaN]) (XF 4).
 Proof.
@@ -141,12 +150,30 @@ Print Assumptions C19_zero_slice_refuted.
    index cannot be stacked (Python scalar 0.0 next to arrays: the model's None = raises) *)
 Theorem C19_zero_slice_check_zero : 
   x_value_ok (Plain (MArr [XF 1; XF 2; XF 2; XF 4]))
-             (match X_sum true true zs_prog zs_slices with Some s => s | None => Plain (MScal XNaN) end) = true /\
-  X_sum true true zs_prog [nth 1 zs_slices []; nth 1 zs_slices []; nth 0 zs_slices []] =
+             (match X_sum false true true zs_prog zs_slices with Some s => s | None => Plain (MScal XNaN) end) = true /\
+  X_sum false true true zs_prog [nth 1 zs_slices []; nth 1 zs_slices []; nth 0 zs_slices []] =
      Some (Strip (MArr [XNaN; XNaN; XNaN; XNaN]) (XF 4)) /\
-  X_stack true true false zs_prog [0;1]%nat zs_slices = None.
+  X_stack false true true false zs_prog [0;1]%nat zs_slices = None.
 Proof. vm_compute. repeat split; reflexivity. Qed.
 Print Assumptions C19_zero_slice_check_zero.
+
+(* the same witnesses under the semantics of the proposed fix (first argument `true`:
+   divisor factor + (factor == 0), `== -inf` guards): the value is right with and without
+   check_zero, also for two zero slices first and for a zero chunk of a sliced output index
+   without check_zero; the check_zero + sliced output crash (Python scalar in np.stack) stays *)
+Theorem C19_zero_slice_with_fix :
+  let ok o := x_value_ok (Plain (MArr [XF 1; XF 2; XF 2; XF 4]))
+                         (match o with Some s => s | None => Plain (MScal XNaN) end) in
+  let z := nth 1 zs_slices [] in let nz := nth 0 zs_slices [] in
+  ok (X_sum true true false zs_prog zs_slices) = true /\
+  ok (X_sum true true true zs_prog zs_slices) = true /\
+  ok (X_sum true true false zs_prog [z; z; nz]) = true /\
+  ok (X_sum true true true zs_prog [z; z; nz]) = true /\
+  X_stack true true false false zs_prog [0;1]%nat zs_slices =
+    Some ([(0%nat, MArr [XF (1#4); XF (1#2); XF (1#2); XF 1]); (1%nat, MArr [XF 0; XF 0; XF 0; XF 0])], Some (XF 4)) /\
+  X_stack true true true false zs_prog [0;1]%nat zs_slices = None.
+Proof. vm_compute. repeat split; reflexivity. Qed.
+Print Assumptions C19_zero_slice_with_fix.
 
 (* ---- non-vacuity ---------------------------------------------------------------- *)
 (* the hypotheses of C19_strip_value hold for 'a,a->' on [1,2] . [3,4] over the reals *)
@@ -154,8 +181,8 @@ Example C19_strip_value_nonvacuous :
   let prog := [IPair 2 0 1 (R_bil [[(0,0);(1,1)]%N])] in
   let arrays := [[1;2];[3;4]] in
   Forall homog_instr prog /\ wf_prog R prog (seq 0 (length arrays)) = true /\
-  Forall (fun t => fst t <> 0) (R_trace prog (combine (seq 0 (length arrays)) arrays) 0) /\
-  exists m e, R_core true false prog arrays = Done m (Some e).
+  Forall (fun t => fst t <> 0) (R_trace (fun f => f) prog (combine (seq 0 (length arrays)) arrays) 0) /\
+  exists m e, R_core (fun f => f) true false prog arrays = Done m (Some e).
 Proof.
   cbv zeta. split; [|split; [|split]].
   - constructor; [apply R_bil_homog | constructor].
@@ -175,10 +202,10 @@ Example C19_exact_instance_runs :
   let big := (10 ^ 100)%Z in
   let arrays := [[q (1*big) 1; q (2*big) 1; q (3*big) 1; q (-4*big) 1];
                  [XF (1 # 7); XF (2 # 7); XF (3 # 7); XF (5 # 7)]] in
-  match X_core true false prog arrays, X_core false false prog arrays with
+  match X_core false true false prog arrays, X_core false false false prog arrays with
   | Done m (Some e), Done r None =>
       x_value_ok (Plain (MArr r)) (Strip (MArr m) e) && forallb x_nonzero_finite r
-      && eqb (map (fun t => snd (snd t)) (X_trace prog arrays)) [XF 1]
+      && eqb (map (fun t => snd (snd t)) (X_trace false prog arrays)) [XF 1]
   | _, _ => false
   end = true.
 Proof. vm_compute. reflexivity. Qed.
